@@ -80,3 +80,21 @@ func Select(site string, hasDefault bool, cases ...Case) (int, reflect.Value, bo
 	}
 	return reflect.Select(rc)
 }
+
+// Guarded is a lock-discipline probe for values that must only be used while a mutex is held (a websocket connection
+// has one writer at a time): the overlay rewrites `x.conn.WriteMessage(...)` into
+// `simrt.Guarded(x.mux, site, x.conn).WriteMessage(...)`. Writing without the mutex is a bug whatever the schedule: two
+// such writers can run at the same time in production (gorilla panics: "concurrent write to websocket connection").
+func Guarded[T any](m interface{}, site string, v T) T {
+	s := sched.Load()
+	if s == nil {
+		return v
+	}
+	g := s.cur()
+	if g.heldW[ptrOf(m)] == 0 {
+		s.mu.Lock()
+		s.Findings = append(s.Findings, "connection_write_without_its_mutex@"+site)
+		s.mu.Unlock()
+	}
+	return v
+}
